@@ -25,6 +25,10 @@ claim("C19", "error-flow analysis: per error-returning call site, path enumerati
       "For every call site (309 on this tree) whose callee can return an error, at any depth and for every invocation: the error is propagated on every path where it is non-nil (never discarded, overwritten, tested-then-nil, swallowed by a loop, turned into an unconverted panic, or its value result used before the test); New/Prepare/exec/execAndPostProcess/Exec return a nil result with every error; nothing caller-visible stays modified after a failure (C11's ownership obligations, cache filled after parse, mutex released). Replaces the k-th-invocation quantifier by a per-site argument; ASYNC/SPIN user calls are outside the property.",
       NOTE, "DESIGN.md 2/C19")
 
+claim("C10", "crash-discipline rules over the resolved program: deferred-recover dominance at API entries, recover-handler totality, per-go-statement recover/WaitGroup discipline, explicit-panic placement, CTE re-entrancy guard (path enumeration), marker-copy guard (dominating branch facts), lock pairing (go/ssa + VTA)",
+      "For every query, option set and input: New and Exec defer a recover-to-error handler as their first action; no recover handler can re-panic; every go statement's function recovers before anything that can panic and defers WaitGroup.Done (Add precedes go); explicit panics exist only under a synchronous caller's recover; the CTE thunk replaces its own entry before evaluating its body on every path; the star projection cannot copy the <- back-reference; every Lock is released on all paths with nothing panicking in between. Does not decide termination of loops in general.",
+      NOTE, "DESIGN.md 2/C10")
+
 _pending = "rule set for this property is not implemented yet in this round (see DESIGN.md section 2 for the planned structural rules)"
 for p in ["C01","C02","C03","C04","C05","C06","C07","C09","C10","C11","C12","C13","C14","C15","C16","C17","C18","C19","C20"]:
     if p not in CLAIMED:
